@@ -57,6 +57,10 @@ def check(run, prog, tier):
                       "axis: the matrix of correlation functions keeps every function it is given from the first to the last point "
                       "(no store of a leading part, no cut at an index computed from times)", minimum=1)
     rule_M(run, prog)
+    run.rule("C11-N", "the spectrum of a molecule is the sum over all its transitions from the ground state: where the monomer "
+                      "calculation reads an energy, a dipole, a lifetime or an environment of an excited level, the level is a loop "
+                      "variable over the levels of the molecule, not the literal 1", minimum=3)
+    rule_N(run, prog)
     run.rule("C11-A", "eigenbasis transformations in the aggregate calculation are undone", minimum=4)
     run.rule("C11-B", "half-sided transform is laid on the returned grid", minimum=10)
     run.rule("C11-C", "dipoles enter through scalar products only", minimum=3)
@@ -317,9 +321,13 @@ def rule_C(run, prog):
                    loc=ds.loc(), sample={"value": show_normal(normal(res)) if isinstance(res, Expr) else repr(res)})
     f = prog.func(AC + "_calculate_monomer")
     st = [norm(n) for n in ast.walk(f.node) if isinstance(n, ast.Assign)]
-    ok = "dd = numpy.dot(dm, dm)" in st and "dm = self.system.dmoments[0, 1, :]" in st
+    # the strength handed to one_transition_spectrum is v.v of one row dmoments[0, k, :] (any level k: literal or loop variable)
+    rows = {norm(n.targets[0]) for n in ast.walk(f.node) if isinstance(n, ast.Assign) and isinstance(n.value, ast.Subscript)
+            and norm(n.value.value) == "self.system.dmoments" and isinstance(n.value.slice, ast.Tuple) and len(n.value.slice.elts) == 3
+            and norm(n.value.slice.elts[0]) == "0" and isinstance(n.value.slice.elts[2], ast.Slice)}
+    ok = any(("dd = numpy.dot(%s, %s)" % (r, r)) in st for r in rows)
     run.obligation(rid, f.short, ok, key="scalar-product",
-                   message="monomer line strength must be d.d of the 0->1 transition dipole", loc=f.loc())
+                   message="monomer line strength must be d.d of the transition dipole of the line", loc=f.loc())
     f = prog.func(AC + "_calculate_aggregate")
     dds = [norm(n.value) for n in ast.walk(f.node) if isinstance(n, ast.Assign) and norm(n.targets[0]) == "tr['dd']"]
     ok = dds == ["DD.dipole_strength(0, 1)", "DD.dipole_strength(0, ii)"] or sorted(dds) == sorted(
@@ -378,6 +386,45 @@ def rule_K(run, prog):
                        loc=f.loc(bad[0][0]) if bad else f.loc(f.node))
     if n < 3:
         raise AnalysisError("C11-K: only %d coupling functions found" % n)
+
+
+def rule_N(run, prog):
+    """'The absorption spectrum returned for a molecule ... equals sum_a |d_a|^2 exp(-g_a(t) - i w_a t)': a Molecule has
+    `nel` electronic levels, every transition 0 -> k with a dipole moment absorbs.  In
+    AbsSpectrumCalculator._calculate_monomer every read of self.system.elenergies[k], dmoments[0, k], of the lifetime
+    and of the environment of level k uses a name bound by a loop over range(..., self.system.nel) for k."""
+    rid = "C11-N"
+    f = prog.func("quantarhei.spectroscopy.abscalculator.AbsSpectrumCalculator._calculate_monomer")
+    prog.consulted.add(f.relpath)
+    loopvars = set()
+    for lp in walk_no_nested(f.node):
+        if isinstance(lp, ast.For) and isinstance(lp.target, ast.Name) and "nel" in norm(lp.iter):
+            loopvars.add(lp.target.id)
+    n = 0
+
+    def level_exprs():
+        for x in walk_no_nested(f.node):
+            if isinstance(x, ast.Subscript) and norm(x.value) == "self.system.elenergies":
+                yield x, x.slice
+            elif isinstance(x, ast.Subscript) and norm(x.value) == "self.system.dmoments" and isinstance(x.slice, ast.Tuple) \
+                    and len(x.slice.elts) >= 2:
+                yield x, x.slice.elts[1]
+            elif isinstance(x, ast.Call) and isinstance(x.func, ast.Attribute) and norm(x.func.value) == "self.system" \
+                    and x.func.attr in ("get_electronic_natural_lifetime", "get_egcf", "get_transition_environment") and x.args:
+                a = x.args[0]
+                yield x, (a.elts[1] if isinstance(a, ast.Tuple) and len(a.elts) == 2 else a)
+
+    for x, lvl in level_exprs():
+        if isinstance(lvl, ast.Constant) and lvl.value == 0:
+            continue                # the ground state
+        n += 1
+        ok = isinstance(lvl, ast.Name) and lvl.id in loopvars
+        run.obligation(rid, f.short, ok, key="level:" + norm(x)[:50],
+                       message="_calculate_monomer reads `%s` for the level %s only: a molecule with more than two levels absorbs on "
+                               "every transition 0 -> k that has a dipole moment, and the lines of the other transitions are "
+                               "missing from the spectrum" % (norm(x)[:60], norm(lvl)), loc=f.loc(x))
+    if n < 3:
+        raise AnalysisError("C11-N: only %d reads of level quantities found in _calculate_monomer" % n)
 
 
 def rule_M(run, prog):
